@@ -19,7 +19,10 @@ ParentOf == [s1 |-> "d1", s2 |-> "d1", s3 |-> "s1", p1 |-> "s1", p2 |-> "s1", p3
 RECURSIVE ChainOK(_, _, _, _)
 \* variations the readers accept by design: element names are matched case-insensitively, stray text is ignored
 \* (the XML reader; dictionary keys are matched exactly)
-Tolerated(fmt) == IF fmt = "XML" THEN {"case-tag", "case-child", "text-in-element"} ELSE {}
+\* and the items of a value list may be surrounded by blanks ("[ 1 , 2 ]"); a list holding nothing but
+\* layout whitespace ("[ \n ]", defect "blanklist") is a defect of that Property like an unparsable value
+Layout == {"spacedlist"}
+Tolerated(fmt) == Layout \cup (IF fmt = "XML" THEN {"case-tag", "case-child", "text-in-element"} ELSE {})
 ChainOK(g, h, n, fmt) == IF h = "d1" \/ n = 0 THEN TRUE ELSE g[h] \in {"ok"} \cup Tolerated(fmt) /\ ChainOK(g, ParentOf[h], n - 1, fmt)
 ValidPart(g, h, fmt) == ChainOK(g, h, 4, fmt)
 AnyDefect(g) == \E x \in DOMAIN g : g[x] # "ok"
